@@ -71,6 +71,8 @@ type runResult struct {
 	Trace     []string        `json:"trace,omitempty"`
 	Probes    map[string]int  `json:"probes,omitempty"`
 	Faults    map[string]int  `json:"faults,omitempty"`
+	ChunkFrom int             `json:"-"` // first run of the worker process that found it
+	ChunkSeed uint64          `json:"-"` // the seed that worker was given (Seed is the run's own, derived from it)
 }
 
 type summary struct {
@@ -103,6 +105,12 @@ type replayFile struct {
 	Violation *violation        `json:"violation,omitempty"`
 	Trace     []string          `json:"trace,omitempty"`
 	Note      string            `json:"note,omitempty"`
+	// PrefixFrom, when set, says that the violation depends on what earlier runs
+	// left behind in the process (state of the code under test that outlives a
+	// run): the replay executes runs *PrefixFrom..Run of the seed in one process,
+	// exactly as the worker that found it did.
+	PrefixFrom *int   `json:"prefix_from,omitempty"`
+	PrefixSeed uint64 `json:"prefix_seed,omitempty"`
 }
 
 type knownFinding struct {
@@ -577,6 +585,8 @@ func (h *harnessBin) explore(seed uint64, runs int, budget time.Duration, flags 
 				}
 				agg.add(&s, fam)
 				if s.Violation != nil {
+					s.Violation.ChunkFrom = j.from
+					s.Violation.ChunkSeed = seed
 					mu.Lock()
 					if best == nil || s.Violation.Run < best.Run {
 						best = s.Violation
@@ -617,6 +627,17 @@ func lastJSONLine(b []byte) []byte {
 // ---------------------------------------------------------------- replay
 
 func (h *harnessBin) replay(path string, extra map[string]string) (*runResult, error) {
+	var rf replayFile
+	if data, err := os.ReadFile(path); err == nil && json.Unmarshal(data, &rf) == nil && rf.PrefixFrom != nil {
+		flags := map[string]string{}
+		for k, v := range rf.Flags {
+			flags[k] = v
+		}
+		for k, v := range extra {
+			flags[k] = v
+		}
+		return h.replayPrefix(rf.PrefixSeed, *rf.PrefixFrom, rf.Run, flags)
+	}
 	args := []string{"-replay", path}
 	if len(extra) > 0 {
 		args = append(args, "-flags", flagString(extra))
@@ -633,6 +654,29 @@ func (h *harnessBin) replay(path string, extra map[string]string) (*runResult, e
 		return nil, fmt.Errorf("replay output not understood: %v\n%s", err, tail(out.String(), 2000))
 	}
 	return &r, nil
+}
+
+// replayPrefix re-executes runs from..run of a seed in one fresh process and
+// returns the outcome of the last of them.
+func (h *harnessBin) replayPrefix(seed uint64, from, run int, flags map[string]string) (*runResult, error) {
+	cmd := h.cmd("-seed", strconv.FormatUint(seed, 10), "-from", strconv.Itoa(from), "-to", strconv.Itoa(run+1), "-flags", flagString(flags), "-budget", "1h")
+	var out, errb bytes.Buffer
+	cmd.Stdout = &out
+	cmd.Stderr = &errb
+	if err := runTimeout(cmd, 15*time.Minute); err != nil {
+		return nil, fmt.Errorf("%v\n%s", err, tail(errb.String(), 3000))
+	}
+	var s summary
+	if err := json.Unmarshal(lastJSONLine(out.Bytes()), &s); err != nil {
+		return nil, fmt.Errorf("replay output not understood: %v\n%s", err, tail(out.String(), 2000))
+	}
+	if s.Violation != nil {
+		if s.Violation.Run != run {
+			return nil, fmt.Errorf("replay of runs %d..%d stopped at run %d with %s", from, run, s.Violation.Run, s.Violation.Violation.Invariant)
+		}
+		return s.Violation, nil
+	}
+	return &runResult{Run: run}, nil
 }
 
 func runTimeout(cmd *exec.Cmd, d time.Duration) error {
@@ -867,6 +911,25 @@ func (h *harnessBin) writeReplay(v *runResult, tape []uint32, flags map[string]s
 		write()
 		res, err = h.replay(path, nil)
 		if err != nil || res.Violation == nil || res.Violation.Invariant != v.Violation.Invariant {
+			// The outcome may depend on what the earlier runs of the worker
+			// process left in the code under test (a package-level cache or
+			// pool): replay those runs too, in one fresh process, twice.
+			from := v.ChunkFrom
+			r1, e1 := h.replayPrefix(v.ChunkSeed, from, v.Run, flags)
+			r2, e2 := h.replayPrefix(v.ChunkSeed, from, v.Run, flags)
+			if e1 == nil && e2 == nil && r1.Violation != nil && r2.Violation != nil && r1.Violation.Invariant == v.Violation.Invariant && r2.Violation.Invariant == v.Violation.Invariant {
+				rf.PrefixFrom = &from
+				rf.PrefixSeed = v.ChunkSeed
+				rf.Note = fmt.Sprintf("run %d alone does not show the violation: it depends on state that runs %d..%d left in the process; the replay executes them all", v.Run, from, v.Run-1)
+				rf.Violation = r1.Violation
+				rf.Trace = r1.Trace
+				if len(rf.Trace) > 400 {
+					rf.Trace = rf.Trace[len(rf.Trace)-400:]
+				}
+				rf.Violation.Trace = nil
+				write()
+				return path
+			}
 			fatal2("MACHINERY BUG: violation %q of %s found at seed %d run %d does not reproduce from its replay file %s; nothing is reported",
 				v.Violation.Invariant, h.prop, v.Seed, v.Run, path)
 		}
